@@ -372,6 +372,279 @@ fn run_case(t: &mut Tape, ctx: &mut Ctx) -> Result<CaseOutcome, HarnessError> {
     Ok(o)
 }
 
+
+// ---------------------------------------------------------------- library family
+//
+// Programs over the WHOLE library (the type-directed generator of C01): the balance and
+// enforcement clauses of the property need no model, so they can be asked of any program.
+
+fn lib_job(srcs: &[String], limits: Limits, trace: bool) -> Job {
+    let n = srcs.len();
+    let mut job = Job::new("");
+    job.srcs = srcs.to_vec();
+    job.steps = vec![];
+    for i in 0..n {
+        job.steps.push(Step::Compile { src: i });
+    }
+    job.steps.push(Step::Instantiate);
+    job.steps.push(Step::Counters);
+    for i in 0..n {
+        job.steps.push(Step::ResetCalls);
+        if trace {
+            // the allocation trace of this run alone
+            job.steps.push(Step::TraceStart);
+        }
+        job.steps.push(Step::Run { name: format!("c{i}") });
+        if trace {
+            job.steps.push(Step::TraceTake);
+        }
+        job.steps.push(Step::Counters);
+    }
+    job.steps.push(Step::DropScope);
+    job.steps.push(Step::Counters);
+    job.limits = limits;
+    job.cpu_s = 30;
+    job
+}
+
+/// indices into the steps of a `lib_job`
+struct LibIdx {
+    /// 1 when the job records a trace per run, else 0
+    off: usize,
+    n: usize,
+}
+impl LibIdx {
+    fn per(&self) -> usize {
+        3 + 2 * self.off
+    }
+    fn inst(&self) -> usize {
+        self.n
+    }
+    fn base(&self) -> usize {
+        self.n + 1
+    }
+    fn run(&self, i: usize) -> usize {
+        self.n + 2 + self.per() * i + 1 + self.off
+    }
+    fn trace(&self, i: usize) -> usize {
+        self.run(i) + 1
+    }
+    fn after(&self, i: usize) -> usize {
+        self.n + 2 + self.per() * i + self.per() - 1
+    }
+    fn end(&self) -> usize {
+        self.n + 2 + self.per() * self.n + 1
+    }
+}
+
+/// the model-free clauses on one reply: (kind, case index or None, message)
+fn lib_balance(r: &Reply, ix: &LibIdx, limit: u64, traced: bool) -> Vec<(&'static str, Option<usize>, String)> {
+    let mut bad = vec![];
+    if r.end != End::Ok || !matches!(r.step(ix.inst()), Out::Done) {
+        return bad;
+    }
+    let Some(b_inst) = bytes_of(r.step(ix.base())) else { return bad };
+    let mut prev = b_inst;
+    let mut panicked = false;
+    for i in 0..ix.n {
+        if r.step(ix.run(i)).is_panic() || matches!(r.step(ix.run(i)), Out::Skipped) {
+            panicked = true;
+            break;
+        }
+        let Some(b) = bytes_of(r.step(ix.after(i))) else { break };
+        if b != prev {
+            bad.push((
+                "unbalanced_after_run",
+                Some(i),
+                format!("accounted bytes were {prev} before running c{i} and {b} after its result was dropped (outcome: {})", brief(r.step(ix.run(i)))),
+            ));
+            prev = b;
+        }
+    }
+    if !panicked {
+        if let Some(b) = bytes_of(r.step(ix.end())) {
+            if b != 0 {
+                bad.push(("unbalanced_at_end", None, format!("{b} bytes still accounted after the evaluation scope was dropped")));
+            }
+        }
+    }
+    if traced {
+        // clause (a), run by run: an allocation that lifts the accounted total above L is only
+        // allowed in a run that ends in the allocation violation
+        for i in 0..ix.n {
+            if r.step(ix.run(i)).is_panic() || matches!(r.step(ix.run(i)), Out::Skipped) {
+                break;
+            }
+            if let Out::Trace { trace } = r.step(ix.trace(i)) {
+                let over = trace.iter().filter(|e| **e > 0 && **e as u64 > limit).count();
+                let violated = matches!(r.step(ix.run(i)), Out::Violation { v } if v == "AllocationLimitReached");
+                if over > 0 && !violated {
+                    bad.push((
+                        "limit_exceeded_silently",
+                        Some(i),
+                        format!("size limit {limit}: while c{i} ran, {over} allocations lifted the accounted total above the limit, but the run ended in {} instead of AllocationLimitReached", brief(r.step(ix.run(i)))),
+                    ));
+                }
+            }
+        }
+    }
+    bad
+}
+
+/// a run under a tighter size limit either ends in the allocation violation or gives what the
+/// generous run gives
+fn lib_compare(gen: &Reply, tight: &Reply, ix_g: &LibIdx, ix_t: &LibIdx) -> Vec<(&'static str, Option<usize>, String)> {
+    let mut bad = vec![];
+    if gen.end != End::Ok || tight.end != End::Ok {
+        return bad;
+    }
+    if !matches!(gen.step(ix_g.inst()), Out::Done) || !matches!(tight.step(ix_t.inst()), Out::Done) {
+        return bad;
+    }
+    for i in 0..ix_g.n {
+        let (a, b) = (gen.step(ix_g.run(i)), tight.step(ix_t.run(i)));
+        if a.is_panic() || b.is_panic() || matches!(a, Out::Skipped) || matches!(b, Out::Skipped) {
+            break;
+        }
+        if matches!(b, Out::Violation { v } if v == "AllocationLimitReached") {
+            continue;
+        }
+        if matches!(a, Out::Violation { v } if v == "AllocationLimitReached") {
+            bad.push(("not_upward_closed", Some(i), format!("c{i} ends in AllocationLimitReached under the generous size limit but not under the tight one ({})", brief(b))));
+            continue;
+        }
+        if a != b {
+            bad.push(("limit_changed_result", Some(i), format!("c{i}: {} under the generous size limit, {} under the tight one", brief(a), brief(b))));
+        }
+    }
+    bad
+}
+
+fn lib_limits(t: &mut Tape, size: u64) -> Limits {
+    Limits {
+        search: Some(*t.pick(&[50u64, 2_000, 20_000])),
+        calls: Some(*t.pick(&[300u64, 20_000, 200_000])),
+        depth: Some(*t.pick(&[12u64, 200])),
+        recursion: Some(100_000),
+        size: Some(size),
+        ..Limits::default()
+    }
+}
+
+fn run_lib_batch(subs: &[Vec<u8>], ctx: &mut Ctx) -> Result<Vec<CaseOutcome>, HarnessError> {
+    let l = super::c13::lib(ctx)?;
+    let excluded = ctx.findings.excluded_with_prefix("fn:");
+    let mut cases = vec![];
+    for s in subs {
+        let mut t = Tape::new(s);
+        cases.push(super::c01::gen_std_case(&mut t, l, &excluded));
+    }
+    let mut t0 = Tape::new(&subs[0]);
+    // the limit choices come from the END of the first tape so that they do not move with the program
+    for _ in 0..100 {
+        t0.byte();
+    }
+    let srcs: Vec<String> = cases.iter().enumerate().map(|(i, c)| format!("fn c{i}() -> {} {{\n  {}\n}}\n", c.ret_type, c.body)).collect();
+    let n = srcs.len();
+    let generous = lib_limits(&mut t0, HUGE);
+    let job_g = lib_job(&srcs, generous.clone(), false);
+    let ix_g = LibIdx { off: 0, n };
+    let ix_t = LibIdx { off: 1, n };
+    let rg = ctx.exec(&job_g)?;
+    let mut outs: Vec<CaseOutcome> = cases
+        .iter()
+        .map(|c| CaseOutcome {
+            key: fnv(format!("{}|{}", c.ret_type, c.body).as_bytes()),
+            classes: vec![],
+            evals: 1,
+            ..Default::default()
+        })
+        .collect();
+    if rg.end != End::Ok || !matches!(rg.step(ix_g.inst()), Out::Done) {
+        // a dead process / failed instantiation is C01's business
+        for o in outs.iter_mut() {
+            o.inconclusive = true;
+        }
+        return Ok(outs);
+    }
+    let b_inst = bytes_of(rg.step(ix_g.base())).unwrap_or(0);
+    // a tight limit somewhere above what instantiation needs: many runs end in the violation
+    let room = *t0.pick(&[300u64, 1_500, 6_000, 30_000, 200_000]);
+    let tight_l = b_inst + room;
+    let mut tl = generous.clone();
+    tl.size = Some(tight_l);
+    let job_t = lib_job(&srcs, tl, true);
+    let rt = ctx.exec(&job_t)?;
+    let mut all = vec![];
+    for (k, i, m) in lib_balance(&rg, &ix_g, HUGE, false) {
+        all.push((k, i, m, false));
+    }
+    for (k, i, m) in lib_balance(&rt, &ix_t, tight_l, true) {
+        all.push((k, i, m, true));
+    }
+    for (k, i, m) in lib_compare(&rg, &rt, &ix_g, &ix_t) {
+        all.push((k, i, m, true));
+    }
+    for i in 0..n {
+        let o = &mut outs[i];
+        let g = rg.step(ix_g.run(i));
+        o.classes.push(format!("generous:{}", g.class()));
+        if rt.end == End::Ok {
+            let tcls = match rt.step(ix_t.run(i)) {
+                Out::Violation { v } if v == "AllocationLimitReached" => "allocation_violation",
+                x => x.class(),
+            };
+            o.classes.push(format!("tight:{tcls}"));
+            // non-trivial: the run allocated under accounting and either passed both or tripped the tight limit
+            o.nontrivial = matches!(g, Out::Value { .. } | Out::Error { .. } | Out::Violation { .. }) && tcls != "notfound";
+        }
+        o.sample = Some(json!({"function": srcs[i], "generous": brief(g), "tight_limit": tight_l, "tight": if rt.end == End::Ok { brief(rt.step(ix_t.run(i))) } else { "process died".to_string() }}));
+    }
+    for (kind, idx, msg, tight) in all {
+        // reproduce with the one function alone where the failure names one
+        let mut direct = json!({"form": "c09_lib", "srcs": srcs, "generous": generous, "tight": tight_l});
+        let mut text = format!("{msg}\n{}", srcs.join(""));
+        if let Some(i) = idx {
+            let one = vec![srcs[i].replace(&format!("fn c{i}()"), "fn c0()")];
+            let jg = lib_job(&one, generous.clone(), false);
+            let mut tl1 = generous.clone();
+            tl1.size = Some(tight_l);
+            let jt = lib_job(&one, tl1, true);
+            let (r1, r2) = (ctx.exec(&jg)?, ctx.exec(&jt)?);
+            let (i1, i2) = (LibIdx { off: 0, n: 1 }, LibIdx { off: 1, n: 1 });
+            let again = lib_balance(&r1, &i1, HUGE, false).len() + lib_balance(&r2, &i2, tight_l, true).len() + lib_compare(&r1, &r2, &i1, &i2).len();
+            if again > 0 {
+                direct = json!({"form": "c09_lib", "srcs": one, "generous": generous, "tight": tight_l});
+                text = format!("{msg}\n{}", one[0]);
+            }
+        }
+        let which = idx.unwrap_or(0);
+        let f = Failure::new(kind, format!("[{} size limit] {text}", if tight { "tight" } else { "generous" }))
+            .key("fn", cases[which].keys.iter().find(|(k, _)| k == "fn").map(|(_, v)| v.clone()).unwrap_or_default())
+            .direct(direct);
+        outs[which].failures.push(f);
+    }
+    outs[0].evals += 1;
+    Ok(outs)
+}
+
+fn check_lib_direct(direct: &Value, ctx: &mut Ctx) -> Result<Option<Failure>, HarnessError> {
+    let srcs: Vec<String> = serde_json::from_value(direct["srcs"].clone()).map_err(|e| HarnessError(e.to_string()))?;
+    let generous: Limits = serde_json::from_value(direct["generous"].clone()).map_err(|e| HarnessError(e.to_string()))?;
+    let tight_l = direct["tight"].as_u64().unwrap_or(HUGE);
+    let n = srcs.len();
+    let jg = lib_job(&srcs, generous.clone(), false);
+    let mut tl = generous;
+    tl.size = Some(tight_l);
+    let jt = lib_job(&srcs, tl, true);
+    let (rg, rt) = (ctx.exec(&jg)?, ctx.exec(&jt)?);
+    let (ig, it) = (LibIdx { off: 0, n }, LibIdx { off: 1, n });
+    let mut all = lib_balance(&rg, &ig, HUGE, false);
+    all.extend(lib_balance(&rt, &it, tight_l, true));
+    all.extend(lib_compare(&rg, &rt, &ig, &it));
+    Ok(all.into_iter().next().map(|(k, _, m)| Failure::new(k, m).direct(direct.clone())))
+}
+
 impl Property for C09 {
     fn id(&self) -> &'static str {
         "C09"
@@ -390,14 +663,15 @@ impl Property for C09 {
     }
     fn families(&self, tier: Tier) -> Vec<Family> {
         let k = if tier == Tier::Quick { 1 } else { 20 };
-        vec![Family {
-            name: "accounting",
-            batches: 56 * k,
-            batch_size: 1,
-            tape_len: 60,
-        }]
+        vec![
+            Family { name: "accounting", batches: 56 * k, batch_size: 1, tape_len: 60 },
+            Family { name: "library", batches: 240 * k, batch_size: 12, tape_len: 140 },
+        ]
     }
-    fn run_batch(&self, _family: &str, subs: &[Vec<u8>], ctx: &mut Ctx) -> Result<Vec<CaseOutcome>, HarnessError> {
+    fn run_batch(&self, family: &str, subs: &[Vec<u8>], ctx: &mut Ctx) -> Result<Vec<CaseOutcome>, HarnessError> {
+        if family == "library" {
+            return run_lib_batch(subs, ctx);
+        }
         let mut outs = vec![];
         for s in subs {
             let mut t = Tape::new(s);
@@ -406,6 +680,9 @@ impl Property for C09 {
         Ok(outs)
     }
     fn check_direct(&self, direct: &Value, ctx: &mut Ctx) -> Result<Option<Failure>, HarnessError> {
+        if direct["form"].as_str() == Some("c09_lib") {
+            return check_lib_direct(direct, ctx);
+        }
         if direct["form"].as_str() != Some("c09") {
             return crate::direct::check_generic(direct, ctx);
         }
